@@ -1,80 +1,10 @@
-/- Driver for C07 (also used by C08): 
-   `c07w <e|c> <srcfmt> <hex src> <tree>` → `ok:<hex bytes>` | `err:atom`  (as is, spec)
-   tree := node* ; node := C x<hex> | I x<e> x<c> | P x<name> x<e> x<c> | V x<name> x<val> <0|1>
-         | R (- | x<e> x<c>) ( node* ) | M x<e> x<c> ( node* ) | L x<name> (- | x<e> x<c>)
-         | B x<name> (- | x<e> x<c>) ( node* ) | S          (tokens separated by one space) -/
-import RsassModel.Basic.Proto
-import RsassModel.Writer.Scan
-open Writer
+/- Driver for C07:
+   `c07w <e|c> <srcfmt> <hex src> <tree>` → `ok:<hex bytes>` | `err:atom`  (as is, spec);
+   tree syntax: Writer/Term.lean -/
+import RsassModel.Writer.Term
+open Writer Writer.Term
 
 namespace C07Drv
-
-def unx (t : String) : Option Bytes :=
-  match t.toList with
-  | 'x' :: h => some (Proto.bytesOfHex (String.ofList h)).toList
-  | _ => none
-
-def optAtom : List String → Option (Option Atom × List String)
-  | "-" :: r => some (none, r)
-  | a :: b :: r => match unx a, unx b with
-    | some a, some b => some (some ⟨a, b⟩, r)
-    | _, _ => none
-  | _ => none
-
-mutual
-def parseNode : Nat → List String → Option (Node × List String)
-  | 0, _ => none
-  | fuel + 1, toks =>
-    match toks with
-    | "S" :: r => some (.separator, r)
-    | "C" :: t :: r => (unx t).map fun b => (.comment b, r)
-    | "I" :: a :: b :: r => match unx a, unx b with
-      | some a, some b => some (.import_ ⟨a, b⟩, r)
-      | _, _ => none
-    | "P" :: n :: a :: b :: r => match unx n, unx a, unx b with
-      | some n, some a, some b => some (.prop n ⟨a, b⟩, r)
-      | _, _, _ => none
-    | "V" :: n :: v :: qd :: r => match unx n, unx v with
-      | some n, some v => some (.custom n v (qd == "1"), r)
-      | _, _ => none
-    | "R" :: r => match optAtom r with
-      | some (sel, "(" :: r) => match parseNodes fuel r with
-        | some (body, r) => some (.rule sel body, r)
-        | none => none
-      | _ => none
-    | "M" :: a :: b :: "(" :: r => match unx a, unx b, parseNodes fuel r with
-      | some a, some b, some (body, r) => some (.media ⟨a, b⟩ body, r)
-      | _, _, _ => none
-    | "L" :: n :: r => match unx n, optAtom r with
-      | some n, some (args, r) => some (.atLeaf n args, r)
-      | _, _ => none
-    | "B" :: n :: r => match unx n, optAtom r with
-      | some n, some (args, "(" :: r) => match parseNodes fuel r with
-        | some (body, r) => some (.atBlock n args body, r)
-        | none => none
-      | _, _ => none
-    | _ => none
-def parseNodes : Nat → List String → Option (Nodes × List String)
-  | 0, _ => none
-  | fuel + 1, toks =>
-    match toks with
-    | ")" :: r => some (.nil, r)
-    | toks => match parseNode fuel toks with
-      | some (n, r) => match parseNodes fuel r with
-        | some (ns, r) => some (.cons n ns, r)
-        | none => none
-      | none => none
-end
-
-def parseTop (toks : List String) : Option (List Node) :=
-  match parseNodes (2 * toks.length + 4) (toks ++ [")"]) with
-  | some (ns, []) => some ns.toList
-  | _ => none
-
-def quirksOf (qs : List String) : WQuirks :=
-  { commentReindentCompressed := qs.contains "commentReindentCompressed"
-    atArgsRawCompressed := qs.contains "atArgsRawCompressed"
-    atomsUnchecked := qs.contains "atomsUnchecked" }
 
 def styleOf (s : String) : Style := if s == "c" then .compressed else .expanded
 
@@ -86,7 +16,7 @@ def render (q : WQuirks) (s : Style) (items : List Node) : String :=
 def handle (quirks : List String) (op : String) (args : List String) : String :=
   match op, args with
   | "c07w", [style, _fmt, _src, tree] =>
-    match parseTop ((tree.splitOn " ").filter (· ≠ "")) with
+    match parseTree tree with
     | some items =>
       render (quirksOf quirks) (styleOf style) items ++ "\t" ++ render WQuirks.spec (styleOf style) items
     | none => "bad-args"
